@@ -66,16 +66,17 @@ type summary struct {
 
 // found is a violation located at a run index.
 type found struct {
-	From   int // first run index of the worker process that found it
-	I      int
-	Seed   uint64
-	Viol   Violation
-	Tape   []uint32
-	Sample []string
-	Cold   bool     // found by a cold-start process (replay must pass -cold)
-	GMP    string   // GOMAXPROCS of the worker process that found it
-	Sched  []string // schedule / fault decisions of the (replayed) run
-	Race   string   // race detector report, if that is what fired
+	From    int // first run index of the worker process that found it
+	AscFrom int // R-order: first run index of the batch's worker process that executed run I
+	I       int
+	Seed    uint64
+	Viol    Violation
+	Tape    []uint32
+	Sample  []string
+	Cold    bool     // found by a cold-start process (replay must pass -cold)
+	GMP     string   // GOMAXPROCS of the worker process that found it
+	Sched   []string // schedule / fault decisions of the (replayed) run
+	Race    string   // race detector report, if that is what fired
 }
 
 type chunkResult struct {
@@ -357,6 +358,7 @@ type batch struct {
 	wall                       float64
 	chunks                     int
 	longLived                  int
+	spans                      [][2]int // [from,to) of every worker process of the batch
 }
 
 func newBatch() *batch {
@@ -398,6 +400,17 @@ func (b *batch) add(s *summary) {
 }
 
 const longSpan = 24
+
+// spanStart returns the first run index of the worker process that executed run i.
+func (b *batch) spanStart(i int) int {
+	from := i
+	for _, sp := range b.spans {
+		if sp[0] <= i && i < sp[1] && sp[0] < from {
+			from = sp[0]
+		}
+	}
+	return from
+}
 
 // runBatch executes runs [0,total) of a property in chunks over `par` parallel workers, until
 // done, a violation is found, or the deadline passes.  The violation with the smallest run
@@ -463,6 +476,7 @@ func runBatch(bin, prop string, seed uint64, total, chunk, par int, deadline tim
 				cr := runChunkEnv(bin, prop, seed, s.from, s.to, order, gmp, extra...)
 				mu.Lock()
 				b.chunks++
+				b.spans = append(b.spans, [2]int{s.from, s.to})
 				if cr.err != nil {
 					if firstErr == nil {
 						firstErr = cr.err
